@@ -105,6 +105,10 @@ def e5_own(ctx):
             if r is None:
                 ctx.violation("E5-own", m.files[m.classes[k][0]], ks, None, f"{info['name']} x {ks}",
                               f"{info['name']}: no formatter handles {ks}; the node's own print() is used, which does not emit {info['name']} syntax")
+            elif id(r[0]) in own and m.classes[r[0].q][0] != m.classes[root.q][0] and ks != "KeyValuePairNode":
+                ctx.violation("E5-own", m.files[m.classes[r[0].q][0]], f"{r[0].name}.{r[1]}", None, f"{info['name']} x {ks}",
+                              f"{info['name']}: {ks} is printed by {r[0].name}.{r[1]}, a formatter of another format's module that is "
+                              f"only embedded as a helper: the output for this node is not {info['name']} syntax")
             elif id(r[0]) not in own:
                 ctx.violation("E5-own", m.files[m.classes[r[0].q][0]], f"{r[0].name}.{r[1]}", None, f"{info['name']} x {ks}",
                               f"{info['name']}: {ks} is printed by {r[0].name}.{r[1]}, found through the global formatter registry "
